@@ -107,12 +107,16 @@ inline std::string genMalformedText(sim::Rng &r, const std::string &lab, bool wi
         if (c < 55) line = bad[r.below(sizeof(bad) / sizeof(bad[0]))];
         else if (c < 60 && wild) line = wildBad[r.below(sizeof(wildBad) / sizeof(wildBad[0]))];
         else if (c < 80) { // a grammatical line
-            line = std::to_string(r.below(64)) + " " + std::to_string(r.below(64));
+            const uint64_t i1 = r.below(64), i2 = r.below(64);
+            line = std::to_string(i1) + " " + std::to_string(i2);
             std::string l = labelTextFor(lab, r);
             if (!l.empty()) line += " " + l;
         } else if (c < 90) { // a grammatical line with one byte mutated
-            line = std::to_string(r.below(64)) + " " + std::to_string(r.below(64));
-            if (!line.empty()) line[r.below(line.size())] = (char)(unsigned char)r.below(256);
+            const uint64_t i1 = r.below(64), i2 = r.below(64);
+            line = std::to_string(i1) + " " + std::to_string(i2);
+            const size_t at = (size_t)r.below(line.size());
+            const unsigned char byte = (unsigned char)r.below(256);
+            line[at] = (char)byte;
             if (line.find('\n') != std::string::npos) line = "1 2";
         } else { // embedded NUL / very long token
             if (r.pm(500)) line = std::string("1") + '\0' + " 2";
@@ -177,7 +181,8 @@ inline sim::Plan genPlan(uint64_t seed, const std::string &profile, bool thoroug
             o.b = (int64_t)r.below(1 << 16);
             int64_t algo = (int64_t)r.below(3);
             int64_t dir = (int64_t)r.below(2), loops = r.pm(250) ? 1 : 0, srcsel = r.pm(400) ? 1 : 0;
-            o.y = algo | (dir << 2) | (loops << 3) | (srcsel << 4) | ((int64_t)r.below(128) << 5) | ((int64_t)r.below(1 << 20) << 12);
+            const int64_t srcv = (int64_t)r.below(128), gseed = (int64_t)r.below(1 << 20);
+            o.y = algo | (dir << 2) | (loops << 3) | (srcsel << 4) | (srcv << 5) | (gseed << 12);
             p.ops.push_back(o);
         }
         return p;
@@ -270,6 +275,12 @@ inline sim::Plan genPlan(uint64_t seed, const std::string &profile, bool thoroug
             prev = o;
         }
         p.ops.push_back(o);
+    }
+    // zero-vertex starts: most of them grow early, so that "all sizes from 0 up" is reached by resize histories
+    if (p.n0 == 0 && r.pm(700)) {
+        sim::Op o;
+        o.k = "resize"; o.x = 1 + (int64_t)r.below(3);
+        p.ops.insert(p.ops.begin() + (long)r.below(std::min<size_t>(p.ops.size(), 3) + 1), o);
     }
     // race phase
     if (profile == "C18") {
